@@ -1825,6 +1825,12 @@ void process_metadata_stack(mmd_engine * e, scratch_pad * scratch) {
 	}
 
 	if (header_level != -10) {
+		// Heading levels start at 1 -- a lower base level makes the outline
+		// writers' level comparisons go wrong (elements are never closed)
+		if (header_level < 1) {
+			header_level = 1;
+		}
+
 		scratch->base_header_level = header_level;
 	}
 }
